@@ -1640,6 +1640,14 @@ def _fmt_format2(ex, st, c, args, dty):
     return fresh_obj("string", "String")
 
 
+@reg("str::chars", "String::chars")
+def _str_chars(ex, st, c, args, dty):
+    s = deref(ex, st, args[0])
+    if isinstance(s, Str) and s.cps is not None:
+        return _mk_iter(Arr(tuple(BV(z3.Int2BV(cp, 32), 32, False) for cp in s.cps)))
+    raise Unsupported("str::chars on a string that is not given by its code points")
+
+
 @reg("str::starts_with", "String::starts_with")
 def _str_starts_with(ex, st, c, args, dty):
     s = deref(ex, st, args[0])
